@@ -1,6 +1,7 @@
 package main
 
 import (
+	"strings"
 	stdx509 "crypto/x509"
 	"fmt"
 	"math/big"
@@ -251,12 +252,34 @@ func init() {
 		if tier() == "thorough" {
 			nLint = 600
 		}
-		for i := 0; i < nLint; i++ {
+		// directed: every ordered pair (and some triples) over public / reserved addresses of both families - the verdict
+		// is about the set of addresses, whatever their order, family mix or repetition
+		small := []string{"8.8.8.8", "10.1.2.3", "2606:4700:4700::1111", "2001:4860:4860::8888", "fd00::1", "fe80::1", "::ffff:8.8.4.4", "::1"}
+		var directed [][]string
+		for _, a := range small {
+			for _, b := range small {
+				directed = append(directed, []string{a, b})
+			}
+		}
+		for _, t := range [][]string{{"2606:4700:4700::1111", "2001:4860:4860::8888", "2001:db8::1"}, {"8.8.8.8", "2606:4700:4700::1111", "ff02::1"}, {"2606:4700:4700::1111", "8.8.8.8", "100::1"},
+			{"2606:4700:4700::1111", "2606:4700:4700::1111", "2002:808:808::1"}, {"1.1.1.1", "8.8.8.8", "9.9.9.9", "192.168.1.1"}} {
+			directed = append(directed, t)
+		}
+		for i := 0; i < nLint+len(directed); i++ {
 			tmpl := leafTemplate()
 			tmpl.NotAfter = time.Date(2024, 9, 1, 0, 0, 0, 0, time.UTC)
 			var ips []net.IP
 			var ipsCoq []string
-			for k := rng.Intn(4); k > 0; k-- {
+			if i < len(directed) {
+				for _, a := range directed[i] {
+					ip := net.ParseIP(a)
+					if ip4 := ip.To4(); ip4 != nil && !strings.HasPrefix(a, "::ffff:") {
+						ip = ip4
+					}
+					ips = append(ips, ip)
+				}
+			}
+			for k := rng.Intn(4); k > 0 && i >= len(directed); k-- {
 				ip := net.ParseIP(pick(rng, ipPool))
 				if rng.Intn(3) == 0 {
 					v6 := rng.Bool()
@@ -337,6 +360,20 @@ func init() {
 				return 0
 			}
 			s1, s2, s3 := st("e_ext_san_contains_reserved_ip"), st("e_subject_contains_reserved_ip"), st("e_ext_nc_intersects_reserved_ip")
+			// direct: the SAN lint reports exactly when some listed address is reserved (the address predicate itself is
+			// compared with the model above)
+			if s1 == int(lint.Pass) || s1 == int(lint.Error) {
+				anyReserved := false
+				for _, ip := range c.IPAddresses {
+					if util.IsIANAReserved(ip) {
+						anyReserved = true
+					}
+				}
+				if anyReserved != (s1 == int(lint.Error)) {
+					out.Violate("C19|san-lint-disagrees-with-predicate", fmt.Sprintf("e_ext_san_contains_reserved_ip reports %d on addresses %v (some reserved: %v)", s1, c.IPAddresses, anyReserved),
+						map[string]interface{}{"ips": fmt.Sprint(c.IPAddresses), "der": hexs(der)}, anyReserved, s1)
+				}
+			}
 			out.Add("lints", Case{Coq: fmt.Sprintf("(%s, %s, %s, (%s, %s, %s))", cqList(ipsCoq), cqList(cnCoq), cqList(netsCoq), cqZ(int64(s1)), cqZ(int64(s2)), cqZ(int64(s3))),
 				Tag: fmt.Sprintf("%d%d%d", s1, s2, s3), Desc: map[string]interface{}{"ips": fmt.Sprint(c.IPAddresses), "cn": c.Subject.CommonName, "nets": fmt.Sprint(nets), "statuses": []int{s1, s2, s3}, "der": hexs(der)}})
 		}
